@@ -26,6 +26,7 @@ type c09 struct{}
 func init() {
 	register(c09{})
 	workers["c09"] = c09Worker
+	workers["c09d"] = c09dWorker
 }
 
 func (c09) ID() string { return "C09" }
@@ -46,9 +47,9 @@ func (c09) Info() core.Info {
 
 func (c09) Budget(tier string) core.Budget {
 	if tier == "thorough" {
-		return core.Budget{Runs: 9000, WallCap: 25 * time.Minute}
+		return core.Budget{Runs: 3600, WallCap: 25 * time.Minute}
 	}
-	return core.Budget{Runs: 300, WallCap: 50 * time.Second}
+	return core.Budget{Runs: 252, WallCap: 50 * time.Second}
 }
 
 type c09prog struct {
@@ -112,6 +113,7 @@ var c09Mem = []string{
 	`len(str("q" * %d))`,
 	`a = (0:200) * %d; len(a + a)`,
 	`mrec = macro(x) { func mf(n) { mf(n + 1) }; mf(%d) }` + "\n" + `mrec(1)`,
+	`func ff(n) { if true { if true { if true { len([ff(n + 1)]) } } } }` + "\n" + `ff(%d)`,
 }
 
 // bytes needed per unit of the reported length, for templates whose result is the size of what was built
@@ -124,6 +126,14 @@ var c09Operands = []int64{3_000_000, 6_000_000, 20_000_000, 0, 1, 7, 40, 62, 63,
 
 func (c09) Generate(r *core.Rng, run int, tier string) *core.History {
 	h := &core.History{Cfg: map[string]int64{}, Flags: map[string]bool{}, Strs: map[string]string{}}
+	if run%12 == 11 {
+		p := c09NoPoll[(run/12)%len(c09NoPoll)]
+		h.Strs["sub"], h.Strs["key"] = "nopoll", p.key
+		h.Cfg["maxdepth"] = 1000
+		h.Cfg["fireat"] = int64(1 + r.Intn(200))
+		h.Events = []core.Event{{Ev: "prelude", Text: p.prelude}, {Ev: "program", Text: p.text, Key: p.key}}
+		return h
+	}
 	switch run % 3 {
 	case 0:
 		p := c09Deadline[(run/3)%len(c09Deadline)]
@@ -166,6 +176,21 @@ func (c09) Generate(r *core.Rng, run int, tier string) *core.History {
 			n = int64(core.Pick(r, []int{10, 1000, 200000}))
 		}
 		h.Strs["sub"], h.Strs["key"] = "memory", strings.SplitN(tpl, "%", 2)[0]
+		if strings.HasPrefix(tpl, "func ff(") {
+			h.Strs["key"] = "fat-frames-recursion"
+			n = 0
+			if run/3 >= len(c09Mem) {
+				h.Cfg["maxdepth"] = 1000 // the default-depth case (slow: it dies of stack overflow) once per batch
+			} else {
+				h.Cfg["maxdepth"] = 0
+			}
+		}
+		if tier != "thorough" && h.Cfg["maxdepth"] == 150000 {
+			h.Cfg["maxdepth"] = 20000 // deep default-limit recursions take seconds each: thorough tier only
+		}
+		if strings.HasPrefix(tpl, "mrec = macro") {
+			h.Strs["key"] = "recursion-in-macro-body"
+		}
 		h.Cfg["maxdepth"] = int64(core.Pick(r, []int{0, 1000, 150000}))
 		h.Flags["simmem"] = r.Bool(.5) // deterministic budget through H3 vs the real runtime reading
 		h.Events = []core.Event{{Ev: "program", Text: fmt.Sprintf(tpl, n), N: n}}
@@ -189,6 +214,8 @@ func tokenCount(texts ...string) int {
 
 func (c c09) Execute(h *core.History) *core.Outcome {
 	switch h.Strs["sub"] {
+	case "nopoll":
+		return c.execNoPoll(h)
 	case "deadline":
 		return c.execDeadline(h)
 	case "depth":
@@ -365,6 +392,89 @@ func c09Worker(args []string) int {
 	}
 	_ = json.NewEncoder(os.Stdout).Encode(c09Report{Res: res, Errs: truncAll(errs)})
 	return 0
+}
+
+// c09dWorker: worker c09d <maxdepth> <fireAt> <prelude> <program>: evaluates under the virtual deadline in a
+// child, because an evaluation path that never polls the context cannot be interrupted in-process.
+func c09dWorker(args []string) int {
+	maxDepth, _ := strconv.Atoi(args[0])
+	fireAt, _ := strconv.ParseInt(args[1], 10, 64)
+	s := world.NewSession(world.SessCfg{MaxDepth: maxDepth, Budget: 1 << 40})
+	if args[2] != "" {
+		s.Input(args[2], nil)
+	}
+	r := s.Input(args[3], &core.Fault{Kind: "deadline", At: fireAt})
+	_ = json.NewEncoder(os.Stdout).Encode(map[string]any{"class": r.Class, "fired": r.Fired, "ticks_after": r.TicksAfter, "ticks": r.Ticks})
+	return 0
+}
+
+var c09NoPoll = []c09prog{
+	{"unjson-loop", "", `unjson("for true { }")`, 1, true},
+	{"unjson-recursion-loop", "", `unjson("x = 0; for x >= 0 { x++ }")`, 1, true},
+	{"eval-loop", "", `eval("for true { }")`, 1, true},
+	{"macro-body-loop", "", "mloop = macro() { for true { } }\nmloop()", 1, true},
+	{"macro-arg-loop", "mq = macro(a1) { quote(unquote(a1)) }", `mq((() => { for true { } })())`, 1, true},
+	{"load-loop", `save("c09tmp")`, `unjson("for true { len([1]) }")`, 1, true},
+}
+
+func (c09) execNoPoll(h *core.History) *core.Outcome {
+	o := &core.Outcome{}
+	st := &o.Stats
+	key := h.Strs["key"]
+	var prelude, prog string
+	for i := range h.Events {
+		if h.Events[i].Ev == "prelude" {
+			prelude = h.Events[i].Text
+		} else if h.Events[i].Ev == "program" {
+			prog = h.Events[i].Text
+		}
+	}
+	if prog == "" {
+		st.Shape = "empty"
+		return o
+	}
+	self, _ := os.Executable()
+	ctx, cancel := context.WithTimeout(context.Background(), 45*time.Second)
+	defer cancel()
+	cmd := exec.CommandContext(ctx, self, "worker", "c09d", strconv.FormatInt(h.C("maxdepth"), 10), strconv.FormatInt(h.C("fireat"), 10), prelude, prog)
+	var ob, eb bytes.Buffer
+	cmd.Stdout, cmd.Stderr = &ob, &eb
+	err := cmd.Run()
+	st.Children = 1
+	class := "?"
+	switch {
+	case ctx.Err() != nil:
+		class = "hung"
+		o.Viol = &core.Violation{Oracle: "returns-after-deadline", Sig: "C09|nopoll|returns-after-deadline|" + key,
+			Detail: fmt.Sprintf("%q with the virtual deadline at tick %d: the evaluation never polled the context again and did not return (child killed after 45 s of real time)", prog, h.C("fireat"))}
+	case err != nil:
+		class = "died"
+		o.Viol = &core.Violation{Oracle: "process-survives", Sig: "C09|nopoll|process-survives|" + key, Detail: fmt.Sprintf("%q: %v %s", prog, err, trunc(tailStr(eb.String(), 300), 300))}
+	default:
+		var rep struct {
+			Class      string `json:"class"`
+			Fired      bool   `json:"fired"`
+			TicksAfter int64  `json:"ticks_after"`
+		}
+		if json.Unmarshal(ob.Bytes(), &rep) != nil {
+			st.Discarded = true
+			st.Panic("bad c09d report " + trunc(ob.String(), 100))
+		} else {
+			class = rep.Class
+			if rep.Fired {
+				st.Fault("deadline")
+				st.Nontrivial = true
+			}
+			if rep.Class == "value" {
+				o.Viol = &core.Violation{Oracle: "fired-deadline-reported", Sig: "C09|nopoll|endless-program-returned-value|" + key, Detail: fmt.Sprintf("%q returned a value", prog)}
+			}
+			if rep.TicksAfter > 10000 {
+				o.Viol = &core.Violation{Oracle: "polls-after-deadline-bounded", Sig: "C09|nopoll|polls-after-deadline|" + key, Detail: fmt.Sprintf("%q: %d polls after the deadline fired", prog, rep.TicksAfter)}
+			}
+		}
+	}
+	st.Shape = shapeOf([]string{"nopoll", key, class, fmt.Sprint(h.C("fireat") / 20)})
+	return o
 }
 
 func (c09) execMemory(h *core.History) *core.Outcome {
